@@ -64,21 +64,79 @@ def mk_dist(pairs, dist_as):
     from msdm.core.distributions import DictDistribution
     from msdm.core.distributions.dictdistribution import DeterministicDistribution, UniformDistribution
     if dist_as == "auto":
-        if len(pairs) == 1 and pairs[0][1] == 1.0:
+        if len(pairs) == 1 and pairs[0][1] == 1:
             return DeterministicDistribution(pairs[0][0])
         if len(pairs) > 1 and all(p == 1.0 / len(pairs) for _, p in pairs):
             return UniformDistribution([e for e, _ in pairs])
     return DictDistribution(dict(pairs))
 
 
-def table_funcs(T, actions_as="list", dist_as="dict"):
+SNAPSHOTS = []      # (name, object, frozen content): caller-owned objects that msdm must not mutate
+
+
+def freeze(obj):
+    if isinstance(obj, (list, tuple)):
+        return ("seq", type(obj).__name__, tuple(obj))
+    if hasattr(obj, "items"):
+        return ("dist", type(obj).__name__, tuple((e, p, type(p).__name__) for e, p in obj.items()))
+    return ("other", repr(obj))
+
+
+def watch(name, obj):
+    SNAPSHOTS.append((name, obj, freeze(obj)))
+    return obj
+
+
+def mutated_objects():
+    out = []
+    for name, obj, frozen in SNAPSHOTS:
+        try:
+            if freeze(obj) != frozen:
+                out.append(name)
+        except BaseException as e:
+            if isinstance(e, (KeyboardInterrupt, SystemExit)):
+                raise
+            out.append(name + ":unreadable")
+    return sorted(set(out))
+
+
+def num(x, ints):
+    """float of an exact rational string; integral values as Python int when the case asks for integer-typed inputs"""
+    v = fl(x)
+    if ints and v == int(v) and abs(v) < 2 ** 53:
+        return int(v)
+    return v
+
+
+def table_funcs(T, actions_as="list", dist_as="dict", ints=False, shared=False, tag="base"):
     n, nA = T["n"], T["nA"]
     S, A = LAB.S, LAB.A
-    trans = {(S(s), A(a)): mk_dist([(S(ns), fl(p)) for ns, p in T["trans"][s][a]], dist_as) for s in range(n) for a in range(nA)}
-    rew = {(S(s), A(a), S(ns)): fl(T["rew"][s][a][ns]) for s in range(n) for a in range(nA) for ns in range(n)}
-    acts = {S(s): ([A(a) for a in x] if actions_as == "list" else tuple(A(a) for a in x)) for s, x in enumerate(T["actions"])}
+    pool = {}
+
+    def share(key, make):
+        """shared=True: ONE object for equal contents (one list for equal action sets, one distribution for equal rows)"""
+        if not shared:
+            return make()
+        if key not in pool:
+            pool[key] = make()
+        return pool[key]
+    trans = {}
+    for s in range(n):
+        for a in range(nA):
+            row = [(S(ns), num(p, ints)) for ns, p in T["trans"][s][a]]
+            trans[(S(s), A(a))] = share(("d", tuple(row)), lambda row=row: mk_dist(row, dist_as))
+    rew = {(S(s), A(a), S(ns)): num(T["rew"][s][a][ns], ints) for s in range(n) for a in range(nA) for ns in range(n)}
+    acts = {}
+    for s, x in enumerate(T["actions"]):
+        lab = [A(a) for a in x]
+        acts[S(s)] = share(("a", tuple(lab)), lambda lab=lab: (list(lab) if actions_as == "list" else tuple(lab)))
     absb = {S(s): bool(x) for s, x in enumerate(T["absorbing"])}
-    init = mk_dist([(S(s), fl(p)) for s, p in T["init"]], dist_as)
+    init = mk_dist([(S(s), num(p, ints)) for s, p in T["init"]], dist_as)
+    for k, v in trans.items():
+        watch("%s.next_state_dist%r" % (tag, k), v)
+    for k, v in acts.items():
+        watch("%s.actions(%r)" % (tag, k), v)
+    watch(tag + ".initial_state_dist", init)
     return {
         "initial_state_dist": lambda: init,
         "actions": lambda s: acts[s],
@@ -119,7 +177,8 @@ def make_base(spec):
 def make_base_fresh(spec):
     from msdm.core.mdp import MarkovDecisionProcess, TabularMarkovDecisionProcess
     from msdm.core.mdp.quickmdp import QuickMDP, QuickTabularMDP
-    F = table_funcs(spec["tables"], spec.get("actions_as", "list"), spec.get("dist_as", "dict"))
+    F = table_funcs(spec["tables"], spec.get("actions_as", "list"), spec.get("dist_as", "dict"),
+                    ints=spec.get("ints", False), shared=spec.get("shared_objects", False))
     tabular = spec["tabular"]
     g = spec["gammas"]          # {"inst": str|None, "cls0": str|None, "cls1": str|None}
     gi = spec.get("gamma_as_int", False)
@@ -193,7 +252,7 @@ def dump(o, n, nA):
 
 
 def ov_funcs(alt, keys):
-    F = table_funcs(alt)
+    F = table_funcs(alt, tag="override")
     kw = {}
     for k in keys:
         if k == "state_list":
@@ -212,6 +271,7 @@ def case_augment(case):
     T = case["base"]["tables"]
     n, nA = T["n"], T["nA"]
     out = {"base": dump(base, n, nA), "augs": []}
+    kept = []
     for keys in case["subsets"]:
         try:
             aug = augment(base, **ov_funcs(case["alt"], keys))
@@ -221,6 +281,14 @@ def case_augment(case):
             out["augs"].append({"raised": type(e).__name__})
             continue
         out["augs"].append(dump(aug, n, nA))
+        kept.append((len(out["augs"]) - 1, aug))
+    # results of EARLIER calls re-read after all later calls (class-level / module-level state would show here),
+    # and the same base problem constructed a second time in this process
+    out["stale_changed"] = [i for i, aug in kept[:2] + kept[len(kept) // 2:len(kept) // 2 + 1] if dump(aug, n, nA) != out["augs"][i]]
+    def functional(rep):
+        return {k: rep[k] for k in ("init", "actions", "trans", "rew", "abs", "discount", "state_list", "action_list")}
+    out["base_dump_changed"] = functional(dump(base, n, nA)) != functional(out["base"])
+    out["rebuilt_base_differs"] = functional(dump(make_base_fresh(case["base"]), n, nA)) != functional(out["base"])
     return out
 
 
@@ -231,8 +299,8 @@ def subgoal_option(base, d, planner=None):
         kw["max_nonterminal_pseudoreward"] = fl(d["maxr"])
     if d.get("name") is not None:
         kw["name"] = d["name"]
-    return PlanToSubgoalOption(mdp=base, initial_states=[LAB.S(s) for s in d["initial_states"]],
-                               subgoals=[LAB.S(s) for s in d["subgoals"]], planner=planner,
+    return PlanToSubgoalOption(mdp=base, initial_states=watch("initial_states", [LAB.S(s) for s in d["initial_states"]]),
+                               subgoals=watch("subgoals", [LAB.S(s) for s in d["subgoals"]]), planner=planner,
                                include_mdp_absorbing_states=d["include"], **kw)
 
 
@@ -330,6 +398,7 @@ def case_used(case):
     T = case["base"]["tables"]
     n, nA = T["n"], T["nA"]
     out = {"base": dump(base, n, nA), "base_views": views(base), "derived": []}
+    kept = []
     for d in case["derive"]:
         try:
             if d["how"] == "augment":
@@ -345,10 +414,15 @@ def case_used(case):
             else:
                 o = subgoal_option(base, d).sub_task
             out["derived"].append(derived_report(o, n, nA))
+            kept.append((len(out["derived"]) - 1, o))
         except BaseException as e:
             if isinstance(e, (KeyboardInterrupt, SystemExit)):
                 raise
             out["derived"].append({"raised": type(e).__name__ + ": " + str(e)[:200]})
+    def functional(rep):
+        return {k: rep[k] for k in ("init", "actions", "trans", "rew", "abs", "discount", "state_list", "action_list")}
+    out["stale_changed"] = [i for i, o in kept if functional(dump(o, n, nA)) != functional(out["derived"][i]) or views(o) != out["derived"][i]["views"]]
+    out["base_dump_changed"] = dump(base, n, nA) != out["base"] or views(base) != out["base_views"]
     return out
 
 
@@ -430,6 +504,7 @@ def case_run(case):
     else:
         opt = make_option(o, log, case["base"].get("dist_as", "dict"))
     out["natural_steps"] = []
+    kept = []
     for vi, bidx in enumerate(case.get("visits", [0])):
         base = bases[bidx]
         s0 = LAB.S(case.get("s0s", [case["s0"]])[bidx])
@@ -456,6 +531,7 @@ def case_run(case):
             try:
                 r = opt.run_on(base, s0, rng=random.Random(case["seed"]))
                 rec["returned"] = sim_json(r)
+                kept.append((len(out["runs"]), r))
             except BaseException as e:
                 if isinstance(e, (KeyboardInterrupt, SystemExit)):
                     raise
@@ -463,6 +539,7 @@ def case_run(case):
                 rec["message_has_max_steps"] = "reached max steps" in str(e)
             rec["inner"] = [sim_json(x) for x in log]
             out["runs"].append(rec)
+    out["stale_changed"] = [i for i, r in kept if sim_json(r) != out["runs"][i]["returned"]]
     return out
 
 
@@ -480,7 +557,8 @@ def case_smdp(case):
     base = bases[0]
     random.seed(case["global_seed"])
     log = []
-    opts = [make_option(o, log, case["base"].get("dist_as", "dict")) for o in case["options"]]
+    opts = watch("options", [make_option(o, log, case["base"].get("dist_as", "dict")) for o in case["options"]])
+    kept = []
     # one semi-MDP per base MDP, all sharing the SAME option objects
     smdps = [SemiMarkovDecisionProcess(mdp=b, options=opts, n_option_simulations=case["n"],
                                        include_mdp_actions=case["include"], seed=case["seed"]) for b in bases]
@@ -508,7 +586,10 @@ def case_smdp(case):
             del log[:]
             rec = {}
             try:
-                rec["value"] = enc(fn(s, a))
+                val = fn(s, a)
+                rec["value"] = enc(val)
+                if name != "ecr":
+                    kept.append((len(out["queries"]), name, enc, val))
             except BaseException as e:
                 if isinstance(e, (KeyboardInterrupt, SystemExit)):
                     raise
@@ -518,6 +599,7 @@ def case_smdp(case):
             if bidx == 0:
                 seeds_seen.append(smdp.seed)
         out["queries"].append(q)
+    out["stale_changed"] = [[i, name] for i, name, enc, val in kept if enc(val) != out["queries"][i][name]["value"]]
     out["seed_after"] = smdps[0].seed
     out["seed_constant_after_first_option_query"] = len({x for x in seeds_seen if x is not None}) <= 1
     out["base_discount"] = fj(base.discount_rate)
@@ -525,8 +607,10 @@ def case_smdp(case):
 
 
 def one(case, pl):
+    del SNAPSHOTS[:]
     out = {"augment": case_augment, "subtask": case_subtask, "run": case_run, "smdp": case_smdp,
            "used": case_used}[case["kind"]](case)
+    out["mutated"] = mutated_objects()
     base, spec = LAST_BASE
     if "base_lists_all" in out:
         out["base_lists"] = out["base_lists_all"][0]
